@@ -201,7 +201,9 @@ template <typename K> struct PolIncludeGetEventByValue
 struct PolExcludeShift
 {
 	using ArgumentPassingMode = eventpp::ArgumentPassingExcludeEvent;
-	static int getEvent(const int & k, const Tracked &, int) {
+	static int getEvent(const int & k, const Tracked & t, int) {
+		// the policy reads the payload: it must be shown the caller's arguments, not moved-from ones (then it does not shift)
+		if(t.isMoved()) return k;
 		for(int i = 0; i < kKeys; ++i) if(KeyPool<int>::make(i) == k) return KeyPool<int>::make((i + 1) % kKeys);
 		return k;
 	}
